@@ -15,6 +15,10 @@ enum MacroKind {
     DelimDotSemi,
     DelimOverlap,
     NoParams,
+    Nine,
+    PrefixText,
+    BraceDelim,
+    CsDelim,
 }
 
 #[derive(Clone, Debug, PartialEq)]
@@ -234,7 +238,18 @@ impl RawGen {
                 let pre = ["", "", "\\global", "\\long", "\\outer", "\\global\\long"][rng.below(6)];
                 let def = if rng.chance(1, 5) { "\\gdef" } else { "\\def" };
                 let pre = if def == "\\gdef" && pre.contains("global") { "" } else { pre };
-                let (params, body, kind) = match rng.below(5) {
+                let (params, body, kind) = match rng.below(10) {
+                    5 => (
+                        "#1#2#3#4#5#6#7#8#9".to_string(),
+                        format!("<#9#1#5|{id}|#2#3#4#6#7#8>"),
+                        MacroKind::Nine,
+                    ),
+                    // text before the first parameter, a doubled parameter character in the body
+                    6 => ("X\u{e9}#1".to_string(), format!("[{id}##:#1]"), MacroKind::PrefixText),
+                    // the #{ form: the parameter is delimited by the brace, which stays in the input
+                    7 => ("#1#".to_string(), format!("[{id}~#1]").replace('~', "="), MacroKind::BraceDelim),
+                    // delimiters that are a control sequence and a character beyond the BMP
+                    8 => ("#1\\relax#2\u{1d538}".to_string(), format!("[#2,{id},#1]"), MacroKind::CsDelim),
                     0 => ("#1#2".to_string(), format!("<#2|#1|{id}>"), MacroKind::Undelimited(2)),
                     1 => ("#1".to_string(), format!("({id}:#1#1)"), MacroKind::Undelimited(1)),
                     2 => ("#1.#2;".to_string(), format!("[#1/#2/{id}]"), MacroKind::DelimDotSemi),
@@ -561,11 +576,14 @@ impl RawGen {
                     0 => format!("\\dimen14={v} \\the\\dimen14;"),
                     1 => format!("\\skip14={v} plus {w} minus {v}\\relax \\the\\skip14;"),
                     2 => format!("\\global\\dimen15={v} "),
-                    3 => "\\the\\dimen14;\\the\\dimen15;\\the\\skip14;".to_string(),
+                    3 => "\\the\\dimen14;\\the\\dimen15;\\the\\skip14;\\the\\skip15;".to_string(),
                     _ => format!(
-                        "\\skip15=0pt plus {}fil minus {}fill\\relax \\the\\skip15;",
+                        "\\skip15={} plus {}{} minus {}{}\\relax \\the\\skip15;",
+                        ["0pt", "-1.5pt", "3pt"][rng.below(3)],
                         v.trim_end_matches("pt"),
-                        w.trim_end_matches("pt")
+                        ["fil", "fill", "filll", "pt"][rng.below(4)],
+                        w.trim_end_matches("pt"),
+                        ["fil", "fill", "filll", "pt"][rng.below(4)],
                     ),
                 })
             }
@@ -641,6 +659,10 @@ impl RawGen {
             MacroKind::DelimDotSemi => format!("{name} A{v}.B;"),
             MacroKind::DelimOverlap => format!("{name} aaaaab{v}aab"),
             MacroKind::NoParams => format!("{name} "),
+            MacroKind::Nine => format!("{name} abc{{P{v}}}efghi"),
+            MacroKind::PrefixText => format!("{name} X\u{e9}{{P{v}}}"),
+            MacroKind::BraceDelim => format!("{name} P{v}{{}}"),
+            MacroKind::CsDelim => format!("{name} P{v}\\relax Q\u{1d538}"),
         }
     }
 
